@@ -136,7 +136,13 @@ func curSched() *schedHandle {
 func (h *schedHandle) park(site, kind string) {
 	h.s.mu.Lock()
 	if h.s.detached {
+		ab := h.s.abandoned
 		h.s.mu.Unlock()
+		if ab {
+			// the execution is over: a goroutine that is still looping (a retry loop that never ends) leaves at its
+			// next scheduling point, so the bubble can finish
+			runtime.Goexit()
+		}
 		return
 	}
 	h.g.state = gAtPoint
